@@ -77,10 +77,12 @@ _KEEP_DECL = set()
 class SArr(_np.ndarray):
     """object ndarray holding symx scalars (and plain numbers)."""
     decl = None     # declared dtype (for no-wrap-around obligations)
+    fkind = None    # 'f' when created by the shim as a floating array
 
     def __array_finalize__(self, obj):
         if obj is not None:
             self.decl = getattr(obj, 'decl', None)
+            self.fkind = getattr(obj, 'fkind', None)
 
     def __getitem__(self, k):
         return super().__getitem__(_fixidx(k))
@@ -120,9 +122,20 @@ class SArr(_np.ndarray):
         return r
 
     def __setitem__(self, k, v):
-        if self.decl is not None and core.CUR is not None \
-                and core.CUR.mode == 'sym':
-            _range_obligation(self.decl, v)
+        if core.CUR is not None and core.CUR.mode == 'sym':
+            if self.decl is not None:
+                _range_obligation(self.decl, v)
+            if LOSSLESS['on'] and self.fkind == 'f' and \
+                    isinstance(v, SArr) and v.decl is not None and \
+                    v.decl.kind in 'iu' and v.decl.itemsize == 8:
+                # 64-bit integers pushed through a float64 array keep
+                # their value only up to 2**53
+                for x in v.flat:
+                    if isinstance(x, Sym) and not isinstance(x, SBool):
+                        core.CUR.check(
+                            core.And(x <= 2 ** 53, x >= -2 ** 53),
+                            'value of a 64-bit integer dataset survives '
+                            'its trip through a floating-point array')
         return super().__setitem__(_fixidx(k), v)
 
     def astype(self, dtype, *a, **k):
@@ -186,6 +199,7 @@ def _map(a, f):
 
 
 RANGE_CHECK = {'on': False}
+LOSSLESS = {'on': False}
 
 
 def _range_obligation(dt, v):
@@ -299,6 +313,7 @@ class NpShim:
         a.fill(_cast(fillv, kd) if kd in 'iufb' else fillv)
         a = a.view(SArr)
         a.decl = _np.dtype(dtype) if kd in 'iu' else None
+        a.fkind = 'f' if kd == 'f' else None
         return a
 
     def zeros(self, shape, dtype=float, **k):
